@@ -395,6 +395,114 @@ def blocks_rule(ctx, p, K):
                message="index lists must pair self.linear_obj_list with the ranges of ALL linear objects (cls=LinearObj) so that entries stay aligned")
 
 
+def _slice_parts(ix):
+    """slice(R[a, 0], R[a, 1], None) -> (R name, a) or None"""
+    ats = list(ix.atoms()) if isinstance(ix, Poly) else []
+    if len(ats) != 1 or ats[0][0] != "f" or ats[0][1] != "slice":
+        return None
+    lo, hi, _ = ats[0][2]
+    la, ha = list(lo.atoms()), list(hi.atoms())
+    if len(la) != 1 or len(ha) != 1 or la[0][0] != "i" or ha[0][0] != "i" or la[0][1] != ha[0][1]:
+        return None
+    if len(la[0][2]) != 2 or la[0][2][1] != ZERO or ha[0][2][1] != ONE or la[0][2][0] != ha[0][2][0]:
+        return None
+    return la[0][1], la[0][2][0]
+
+
+def _cls_of(name: str):
+    import re
+    m = re.match(r"^param_range_list_from\((\w+)\)$", name)
+    if m:
+        return m.group(1)
+    m = re.match(r"^cls_list_from\(.*?, (\w+), .*\)$", name)
+    if m:
+        return m.group(1)
+    return None
+
+
+def _list_elems(p_: Poly):
+    """(list name, index poly) for every element of a cls_list_from(...) list that occurs in p_"""
+    out = set()
+    for a in p_.all_atoms():
+        if a[0] == "i" and a[1].startswith("cls_list_from(") and len(a[2]) == 1:
+            out.add((a[1], a[2][0]))
+    return out
+
+
+def assembly_rule(ctx, p, K):
+    """w-tilde formalism, function-list x function-list blocks: block [range(a), range(b)] = (B_a/sigma)^T (B_b/sigma),
+    the operand selected by the same loop variable (and object class) as the block range it is written to."""
+    rule = "C04.assembly"
+    f = p.func("autoarray.inversion.inversion.imaging.w_tilde:InversionImagingWTilde._curvature_matrix_func_list_and_mapper")
+    S = K.summarize(f)
+    blocks = []
+    for s in S.stores:
+        if len(s.idx) == 2 and isinstance(s.value, Poly):
+            ats = list(s.value.atoms())
+            if len(ats) == 1 and ats[0][0] == "f" and ats[0][1] == "dot" and len(ats[0][2]) == 2 and _slice_parts(s.idx[0]) and _slice_parts(s.idx[1]):
+                blocks.append((s, ats[0][2]))
+    ctx.require_count(rule, "function-list cross blocks written as dot(A^T, B)", len(blocks), 1)
+    for s, (left, right) in blocks:
+        (r0, a), (r1, b) = _slice_parts(s.idx[0]), _slice_parts(s.idx[1])
+        el, er = _list_elems(left), _list_elems(right)
+        ok = len(el) == 1 and len(er) == 1
+        det = f"rows {r0}[{a!r}] cols {r1}[{b!r}]; left operand from {sorted((n[:30], repr(i)) for n, i in el)}; right from {sorted((n[:30], repr(i)) for n, i in er)}"
+        if ok:
+            (ln, li), (rn, ri) = list(el)[0], list(er)[0]
+            ok = li == a and ri == b and _cls_of(ln) == _cls_of(r0) and _cls_of(rn) == _cls_of(r1) and _cls_of(r0) is not None
+            # (B/sigma)^T (B/sigma): same weighting on both sides
+            N = E_("self.noise_map", S_(":"), S_("None"))
+            wl = Poly.fn("T", E_("self.linear_func_operated_mapping_matrix_dict", E_(ln, li)) / N)
+            wr = E_("self.linear_func_operated_mapping_matrix_dict", E_(rn, ri)) / N
+            ok = ok and left == wl and right == wr
+        ctx.ob(rule, f.key + ":func-func", ok, where=f, node=s.node, construct=det,
+               message="block [range(a), range(b)] must be (B_a / sigma)^T (B_b / sigma) with operand a / b selected by the same loop variable and class as the row / column range")
+    # mapper x function-list and mapper x mapper blocks: ranges and operands indexed by the same loop variables
+    for key in ("autoarray.inversion.inversion.imaging.w_tilde:InversionImagingWTilde._curvature_matrix_multi_mapper",):
+        g = p.func(key)
+        G = K.summarize(g)
+        n = 0
+        for s in G.stores:
+            if len(s.idx) == 2 and _slice_parts(s.idx[0]) and _slice_parts(s.idx[1]) and len(s.loops) == 2:
+                (r0, a), (r1, b) = _slice_parts(s.idx[0]), _slice_parts(s.idx[1])
+                calls = [c for c in G.calls if c[0].endswith("_curvature_matrix_off_diag_from")]
+                okc = len(calls) == 1
+                det = f"rows {r0}[{a!r}] cols {r1}[{b!r}]"
+                if okc:
+                    ca = calls[0][1]
+                    m0, m1 = ca.get("mapper_0"), ca.get("mapper_1")
+                    okc = isinstance(m0, Ref) and isinstance(m1, Ref) and m0.idx == (a,) and m1.idx == (b,) and m0.name == m1.name and _cls_of(m0.name) == _cls_of(r0) == _cls_of(r1)
+                    det += f"; off-diagonal of ({m0!r}, {m1!r})"
+                i, j = S_(s.loops[0].var), S_(s.loops[1].var)
+                okc = okc and a == i and b == j and s.loops[1].lo == i + ONE
+                n += 1
+                ctx.ob(rule, key + ":mapper-mapper", okc, where=g, node=s.node, construct=det,
+                       message="the off-diagonal block of mappers (i, j > i) must be computed from mapper i and mapper j and written at [range(i), range(j)]")
+        ctx.require_count(rule, "mapper-mapper off-diagonal block stores", n, 1)
+    # off-diagonal helper: D_01 + D_10^T with the roles of the two mappers exchanged
+    h = p.func("autoarray.inversion.inversion.imaging.w_tilde:InversionImagingWTilde._curvature_matrix_off_diag_from")
+    callee = p.func(f"{IU}:curvature_matrix_off_diags_via_w_tilde_curvature_preload_imaging_from")
+    cs = wire.calls_to(p, h, callee.key)
+    ok = len(cs) == 2
+    det = ""
+    if ok:
+        def who(c):
+            b = {k: norm_text(v) for k, v in wire.kw(c, callee).items()}
+            side = {}
+            for sfx in ("_0", "_1"):
+                owners = {b.get(k + sfx, "").split(".")[0] for k in ("data_to_pix_unique", "data_weights", "pix_lengths", "pix_pixels")}
+                side[sfx] = owners.pop() if len(owners) == 1 else None
+            common = (b.get("curvature_preload"), b.get("curvature_indexes"), b.get("curvature_lengths"))
+            return side, common
+        (s0, c0), (s1, c1) = who(cs[0]), who(cs[1])
+        det = f"call 1 {s0}; call 2 {s1}"
+        ok = s0 == {"_0": "mapper_0", "_1": "mapper_1"} and s1 == {"_0": "mapper_1", "_1": "mapper_0"} and c0 == c1 == ("self.w_tilde.curvature_preload", "self.w_tilde.indexes", "self.w_tilde.lengths")
+        rets = wire.returns_of(h)
+        ok = ok and len(rets) == 1 and isinstance(rets[0].value, ast.BinOp) and isinstance(rets[0].value.op, ast.Add) and norm_text(rets[0].value.right).endswith(".T") and not norm_text(rets[0].value.left).endswith(".T")
+    ctx.ob(rule, h.key, ok, where=h, node=cs[0] if cs else h.node, construct=det,
+           message="the off-diagonal block must be D(mapper_0, mapper_1) + D(mapper_1, mapper_0)^T, each with all four per-mapper tables taken from the same mapper")
+
+
 def run(ctx):
     p = ctx.p
     K = KEval(p)
@@ -412,6 +520,8 @@ def run(ctx):
     mapping_rule(ctx, p, K)
     diag_rule(ctx, p, K)
     blocks_rule(ctx, p, K)
+    ctx.rule("C04.assembly", "w-tilde block assembly: each block is computed from the objects selected by the same loop variables (and class) as the ranges it is written to; off-diagonal = D01 + D10^T")
+    assembly_rule(ctx, p, K)
 
 
 _M = "autoarray/inversion/inversion/imaging/inversion_imaging_util.py"
@@ -427,5 +537,7 @@ CONTROLS = [
     Control("offset advanced only for requested class", _A, in_func("AbstractInversion.param_range_list_from", "                index_list.append([pixel_count, pixel_count + linear_obj.params])\n\n            pixel_count += linear_obj.params",
                                                                   "                index_list.append([pixel_count, pixel_count + linear_obj.params])\n\n                pixel_count += linear_obj.params"), "C04.blocks"),
     Control("diag term applied unconditionally in w_tilde", "autoarray/inversion/inversion/imaging/w_tilde.py", in_func("InversionImagingWTilde.curvature_matrix", "if len(self.no_regularization_index_list) > 0:", "if True:"), "C04.diag"),
+    Control("func-func block uses func_0 twice (seed C04/2)", "autoarray/inversion/inversion/imaging/w_tilde.py", in_func("InversionImagingWTilde._curvature_matrix_func_list_and_mapper", "self.linear_func_operated_mapping_matrix_dict[linear_func_1]", "self.linear_func_operated_mapping_matrix_dict[linear_func_0]"), "C04.assembly"),
+    Control("off-diagonal written at [j, i]", "autoarray/inversion/inversion/imaging/w_tilde.py", in_func("InversionImagingWTilde._curvature_matrix_multi_mapper", "mapper_param_range_i[0] : mapper_param_range_i[1],\n                    mapper_param_range_j[0] : mapper_param_range_j[1],", "mapper_param_range_j[0] : mapper_param_range_j[1],\n                    mapper_param_range_i[0] : mapper_param_range_i[1],"), "C04.assembly"),
     Control("twin: k1 computed inline", _M, in_func("w_tilde_curvature_value_from", "kernel_value_1 = kernel_native[k1_y, k1_x]", "kernel_value_1 = kernel_native[k0_y + ip_y_offset, ip_x_offset + k0_x]"), None, twin=True),
 ]
